@@ -636,7 +636,8 @@ type smtCtx struct {
 // quantifier of a contract. Heap well-formedness (every reference stored in the heap the function was
 // entered with denotes an object that existed then) is assumed per load for ground terms
 // (allocatedAssume); a load whose address contains a bound variable gets the same fact as an axiom
-// `forall x. H0.f(x) <= ALLOC0` with the application as its pattern.
+// `forall x. x <= ALLOC0 ==> H0.f(x) <= ALLOC0` (objects that existed at entry hold references to objects
+// that existed at entry) with the application as its pattern.
 var (
 	quantRefSlots   = map[string]bool{}
 	quantRefSlotsMu sync.Mutex
@@ -732,7 +733,9 @@ func (c *smtCtx) emit(t *Term) string {
 				if c.refAx == nil {
 					c.refAx = map[string]string{}
 				}
-				c.refAx[n] = "(assert (forall (" + strings.Join(bvs, " ") + ") (! (<= " + app + " ALLOC0) :pattern (" + app + "))))"
+				// only for objects that existed at entry (first argument = object address): the content of an
+				// object allocated by this activation may be read through the same base function
+				c.refAx[n] = "(assert (forall (" + strings.Join(bvs, " ") + ") (! (=> (<= wfx!0 ALLOC0) (<= " + app + " ALLOC0)) :pattern (" + app + "))))"
 			}
 		}
 		if len(args) == 0 {
